@@ -257,6 +257,33 @@ func (p c04) Run(c *fw.Ctx, idx int) fw.Result {
 			res.Count("tutorial_refused_invalid", 1)
 		}
 	}
+	// ---- history independence of a re-used normaliser + validator instance (routers pool them):
+	// the valid operation, its mutants and the valid operation again on ONE instance must each come
+	// out exactly as on a fresh instance (verdict, printed operation, variables). No ground truth needed.
+	{
+		history := append(append([]string{text}, mutTexts...), text)
+		shared := rig.NewPipeline()
+		prev := "nothing"
+		for i, q := range history {
+			fresh := rig.NewPipeline().Run(ss.Repo, q, opName, vars)
+			reused := shared.Run(ss.Repo, q, opName, vars)
+			res.Count("reused_pipeline_documents_compared", 1)
+			what := ""
+			switch {
+			case fresh.Verdict() != reused.Verdict():
+				what = "verdict"
+			case fresh.Printed != reused.Printed:
+				what = "print"
+			case fresh.Variables != reused.Variables:
+				what = "variables"
+			}
+			if what != "" {
+				res.Violate("history-dependent", "a re-used normaliser/validator instance answers differently from a fresh one ("+what+"): "+reused.Verdict()+" vs fresh "+fresh.Verdict(), map[string]string{"sequence": "reused-pipeline", "what": what}, detail(map[string]any{"document": q, "position_in_history": i, "processed_before": prev, "fresh": fresh, "reused": reused}))
+				break
+			}
+			prev = q
+		}
+	}
 	res.Key = fw.HashKey(sdl, text, mutTexts)
 	res.Nontrivial = len(mutTexts) > 0
 	res.Sample = map[string]any{"operation": text, "variables": string(vars), "mutants": mutTexts}
